@@ -47,6 +47,10 @@ REVIEWED = {
     "minijinja::value::ops::materialize_seq_concat|alloc:with_capacity": "sum of the lengths of two existing sequences (checked_add)",
     "minijinja::vm::context::Stack::get_call_args|Overflow:Sub": "argument count pushed by the code generator itself",
     "minijinja_contrib::filters::truncate|Overflow:Sub": "length - end_len after the `length < end_len` early return",
+    "<minijinja::vm::loop_object::Loop as minijinja::value::object::Object>::get_value_by_str|Overflow:Add|loop object field `depth`":
+        "depth counts nested invocations of a recursive loop, each of which holds a context frame: bounded by the recursion limit",
+    "minijinja::filters::builtins::split::{closure#0}|Overflow:Add":
+        "`x as usize + 1` on the `x >= 0` side only: a non-negative i64 is at most 2^63 - 1",
 }
 
 
@@ -224,8 +228,15 @@ def run(ctx):
                 if kind.startswith(("DivisionByZero", "RemainderByZero")) and taint.nonzero_guard(f, bb, taint.divisor_of(f, f.term(bb))):
                     ndis += 1
                     continue
+                if taint.constant_divisor(f, f.term(bb)) or taint.below_max_guard(f, bb, f.term(bb)):
+                    ndis += 1
+                    continue
+                if kind.startswith("Overflow:Sub") and len(ops) == 2 and "c" in ops[1] and const_int(ops[1]) == 1 \
+                        and "c" not in ops[0] and taint.nonzero_guard(f, bb, ops[0]):
+                    ndis += 1       # `x - 1` on an unsigned x that was tested against 0 (`len == 0 || idx == len - 1`)
+                    continue
                 key = "%s|%s" % (f.path, kind)
-                reason = REVIEWED.get(key)
+                reason = REVIEWED.get(key + "|" + descs[0]) or REVIEWED.get(key)
                 idx = per_key[key] = per_key.get(key, 0) + 1
                 ctx.ob("C01.P3.template-integer-arithmetic-is-safe", "%s%s" % (tag, key), reason is not None,
                        reason or "unchecked `%s` on a template-controlled integer (%s): panics with overflow checks, "
@@ -237,7 +248,7 @@ def run(ctx):
                 idx = taint.ALLOC_SINKS[callee]
                 p = op_place(c.args[idx])
                 bounds = taint.constant_bound_guards(f, bb, p["l"]) if p else []
-                if bounds:
+                if bounds or (p and taint.bounded_on_all_paths(f, bb, p["l"])):
                     ndis += 1
                     continue
                 key = "%s|alloc:%s" % (f.path, callee.split("::")[-1])
@@ -248,7 +259,7 @@ def run(ctx):
             for bb, desc, end in taint.loop_count_hazards(f):
                 n3 += 1
                 bnd = taint.bounded_by_constant(f, bb, end)
-                if bnd:
+                if bnd or ("c" not in end and taint.bounded_on_all_paths(f, bb, end)):
                     ndis += 1
                     continue
                 key = "%s|loop-count" % f.path
@@ -295,9 +306,15 @@ def run(ctx):
                "ops::add must compare MergeSeq::depth_for_values with MergeSeq::MAX_DEPTH", add.loc)
         pn = prog.fns.get("minijinja::formatting::parse_number")
         if pn is not None:
-            ok = "minijinja::formatting::MAX_FORMAT_NUMBER" in query.named_consts(pn)
+            # the bound is either compared inside parse_number or handed in as a constant by every caller
+            from .c01_fmtargs import _bounded_parse
+            sites_ = prog.callers().get(pn.path, [])
+            ok = bool(query.named_consts(pn) & {"minijinja::formatting::MAX_FORMAT_NUMBER"}) or (
+                bool(sites_) and all(_bounded_parse(prog, c_) is not None for c_ in sites_))
             ctx.ob("C01.P6.explicit-limit-present", tag + "format width/precision", ok,
-                   "parse_number must reject numbers above MAX_FORMAT_NUMBER", pn.loc)
+                   "parse_number must reject numbers above a constant limit at every call", pn.loc)
+        from .c01_fmtargs import check_format_args
+        check_format_args(ctx, prog, tag)
         for fn_, what in (("minijinja::filters::builtins::indent", "indent width"), ("minijinja::filters::builtins::tojson", "tojson indent")):
             f = prog.fns.get(fn_)
             if f is None:
